@@ -335,10 +335,15 @@ def import_clauses(ctx, res, src_prop, src_clauses, prop, cid, kind, title, floo
     under this property, so that a change breaking this property is reported by this property's own check"""
     import importlib
     from ..report import Result, LAST_RESULT
+    if getattr(ctx, '_import_depth', 0) > 0:
+        # inside a run that is itself only consulted for some of its clauses: its own restatements are not needed (and two
+        # properties may restate clauses of each other)
+        return res.clause(cid, kind, title + ' (not restated inside an imported run)', floor=0)
     mod = importlib.import_module('sa.rules.%s' % src_prop.lower())
     keep = LAST_RESULT[0]
 
     def run_src():
+        ctx._import_depth = getattr(ctx, '_import_depth', 0) + 1
         try:
             return mod.run(ctx)
         except Exception:
@@ -346,6 +351,8 @@ def import_clauses(ctx, res, src_prop, src_clauses, prop, cid, kind, title, floo
             if part is not None and part.prop == src_prop:
                 return part
             raise
+        finally:
+            ctx._import_depth -= 1
     try:
         src = ctx.get(('imported-run', src_prop), run_src)
     finally:
